@@ -4,7 +4,8 @@ stated and aborted).  Usage: typecheck_props.py C06"""
 import os, re, subprocess, sys, tempfile
 coq = os.path.join(os.path.dirname(os.path.abspath(__file__)), "..", "coq")
 p = sys.argv[1]
-src = open(os.path.join(coq, "Properties", p + ".v")).read()
+pp = os.path.join(coq, "Properties", p + ".v")
+src = open(pp if os.path.exists(pp) else os.path.join(coq, "Pending", p + ".v")).read()
 def _keep(m):
     mods = [x for x in m.group(1).split() if os.path.exists(os.path.join(coq, "Proofs", x + ".vo"))]
     return ("From TauProofs Require %s.\n" % " ".join(mods)) if mods else ""
